@@ -19,6 +19,7 @@ import z3
 
 from . import extract
 from .gf import GFLin, GFNonZero, GFLog
+from . import strings as T
 from .sym import (SInt, SBool, Unsupported, ConcretizeError, fresh_int, fresh_bool, fresh_name,
                   s_and, s_or, s_not, s_ite, s_min, s_max, s_implies, zb, _z, mk_bool, is_sym,
                   range_constraints, same_value, _counter, reset_atoms, QForall, SQuant, SRatio)
@@ -446,6 +447,15 @@ class Interp:
             return self.decide(v)
         if isinstance(v, (bool, int, str, bytes, type(None), tuple, list, dict, float)):
             return bool(v)
+        if isinstance(v, T.StrTok):
+            return self.decide(v.nonempty())
+        if isinstance(v, T.Rope):
+            if any(isinstance(p, str) and p for p in v.ps):
+                return True
+            toks = [t for p in v.ps if not isinstance(p, str) for t in p.tokens()]
+            if len(toks) == 1 and len(v.ps) == 1:
+                return self.decide(toks[0].nonempty())
+            raise Unsupported('truth of composite opaque text')
         if isinstance(v, VBytearray):
             return len(v.items) > 0
         if isinstance(v, SSeq):
@@ -1362,6 +1372,8 @@ class Interp:
                         return BoundMethod(obj.obj, self.closure_for_native(v))
                     return getattr(super(obj.cls, obj.obj), attr)
             raise PyRaise(AttributeError(attr))
+        if isinstance(obj, (T.StrTok, T.Rope)):
+            return self.text_method(obj, attr)
         if isinstance(obj, (SInt, SBool)):
             raise Unsupported('attribute %r of symbolic scalar' % attr)
         if isinstance(obj, (SSeq, SBits, VBytearray)):
@@ -1378,6 +1390,31 @@ class Interp:
                 return obj.count
             raise Unsupported('attribute %r of abstracted list' % attr)
         return getattr(obj, attr)
+
+    def text_method(self, obj, attr):
+        """methods of opaque text used by segno.helpers"""
+        if attr == 'upper':
+            return lambda: T.wrap('upper', obj)
+        if attr == 'translate':
+            def translate(table):
+                names = getattr(self, 'escape_tables', {})
+                nm = names.get(id(table))
+                if nm is None:
+                    raise Unsupported('translate with an unknown table')
+                return T.wrap('esc', obj, nm)
+            return translate
+        if attr == 'encode':
+            return lambda codec='utf-8', errors='strict': T.wrap('enc', obj, codec)
+        if attr == 'replace':
+            def replace(old, new, *a):
+                if old in ('\r', '\n') and '\r' not in new and '\n' not in new:
+                    return T.wrap('nolinebreak', obj) if not (isinstance(obj, T.Rope) and all(
+                        (not isinstance(p, str)) and p.kind == 'nolinebreak' for p in obj.ps)) else obj
+                raise Unsupported('replace on opaque text')
+            return replace
+        if attr in ('strftime', 'isoformat', 'year'):
+            raise PyRaise(AttributeError("'str' object has no attribute %r" % attr))
+        raise Unsupported('method %r of opaque text' % attr)
 
     def setattr(self, obj, attr, v):
         if isinstance(obj, Obj):
@@ -1626,6 +1663,17 @@ class Interp:
         if t in (ast.In, ast.NotIn):
             r = self.contains(b, a)
             return r if t is ast.In else s_not(r)
+        if t in (ast.Eq, ast.NotEq) and (isinstance(a, T.StrTok) or isinstance(b, T.StrTok)):
+            x, y = (a, b) if isinstance(a, T.StrTok) else (b, a)
+            if isinstance(y, str):
+                r = x.eq_const(y)
+            elif y is None or isinstance(y, (int, float, tuple, list)):
+                r = False
+            elif y is x:
+                r = True
+            else:
+                raise Unsupported('comparison of opaque texts')
+            return r if t is ast.Eq else s_not(r)
         if isinstance(a, TupObj):
             a = a.items
         if isinstance(b, TupObj):
@@ -1756,6 +1804,11 @@ class Interp:
                 parts.append(v.value)
             else:
                 val = self.eval(v.value, fr)
+                if T.is_text(val):
+                    if v.conversion != -1 or v.format_spec is not None:
+                        raise Unsupported('conversion / format spec on opaque text in f-string')
+                    parts.append(val)
+                    continue
                 if is_sym(val) or isinstance(val, (SSeq, SBits, VBytearray, Obj, TupObj)):
                     parts.append('<sym>')
                 else:
@@ -1764,6 +1817,8 @@ class Interp:
                     if v.format_spec is not None:
                         spec = self.e_JoinedStr(v.format_spec, fr)
                     parts.append(('{0%s:%s}' % (conv, spec)).format(val))
+        if any(T.is_text(p) for p in parts):
+            return T.Rope([q for p in parts for q in T._pieces_of(p)])
         return ''.join(parts)
 
     def e_Starred(self, n, fr):
@@ -2047,6 +2102,8 @@ def _build_models(I):
     M[int] = m_int
 
     def m_str(x=''):
+        if isinstance(x, (T.StrTok, T.Rope)):
+            return x
         if isinstance(x, SInt):
             if x.lo is not None and x.hi is not None and 0 <= x.lo and x.hi <= 9:
                 return SDigits([x])
@@ -2274,6 +2331,8 @@ class _CallableProxy:
 
 
 def _isinst(v, t):
+    if isinstance(v, (T.StrTok, T.Rope)):
+        return t in (str, object)
     if isinstance(v, SInt):
         return t in (int, object)
     if isinstance(v, SBool):
@@ -2411,6 +2470,8 @@ def _build_method_models(I):
 
     def str_join(self, it):
         vals = I.iterate(it)
+        if any(T.is_text(v) for v in vals):
+            return T.join(self, vals)
         if any(isinstance(v, SDigits) for v in vals):
             if self != '':
                 raise Unsupported('join with separator of symbolic digits')
@@ -2425,6 +2486,14 @@ def _build_method_models(I):
             return SDigits(ds)
         return self.join(vals)
     MM[(str, 'join')] = str_join
+
+    def str_format(self, *a, **kw):
+        if any(T.is_text(v) for v in a) or any(T.is_text(v) for v in kw.values()):
+            if kw:
+                raise Unsupported('keyword format fields with opaque text')
+            return T.format_positional(self, a)
+        return self.format(*a, **kw)
+    MM[(str, 'format')] = str_format
 
     def list_index(self, x, *a):
         if is_sym(x):
@@ -2465,6 +2534,11 @@ def _build_method_models(I):
     def pattern_match(self, data, *a):
         """re.Pattern.match on symbolic bytes: only the shape ^[set]+\\Z / ^[set]*\\Z is
         given semantics, read mechanically from the compiled pattern object"""
+        if isinstance(data, (T.StrTok, T.Rope)):
+            if not isinstance(data, T.StrTok):
+                raise Unsupported('regular expression on composite opaque text')
+            import z3 as _z3
+            return SBool(_z3.Bool('matches_%s_%d' % (data.name, abs(hash(self.pattern)) % 100000)))
         if not isinstance(data, (SSeq, VBytearray)):
             return self.match(data, *a)
         if a:
